@@ -12,7 +12,7 @@ package core
 //verif:bounds 3 locations, each with 0..2 parents (names symbolic, len<=2); one fact and
 // one rule per location; linear and indexed state.
 
-var vhLocNames = []string{"l0", "l1", "l2"}
+var vhLocNames = []string{"l0", "l1", "l2", "l3"}
 
 type vhForest struct {
 	ctx   *Context
@@ -73,14 +73,19 @@ func vhIndexOf(name string) (idx int, known bool) {
 }
 
 // VH_C09_inherit: facts seen through inheritance = union over the transitive parents.
-func VH_C09_inherit(kind, n0, n1, n2 int) {
+func VH_C09_inherit(kind, n0, n1, n2 int) { vhC09Inherit(kind, n0, n1, n2, 0) }
+
+// VH_C09_inherit4: the fourth location may have parents too.
+func VH_C09_inherit4(kind, n0, n1, n2, n3 int) { vhC09Inherit(kind, n0, n1, n2, n3) }
+
+func vhC09Inherit(kind, n0, n1, n2, n3 int) {
 	f := vhNewForest(kind)
 	for i, loc := range f.locs {
 		_, err := loc.AddFact(f.ctx, "f"+vhLocNames[i], Map{"a": "v" + vhLocNames[i]})
 		vassume(err == nil)
 	}
-	counts := []int{n0, n1, n2}
-	parents := make([][]int, 3)
+	counts := []int{n0, n1, n2, n3}
+	parents := make([][]int, 4)
 	bad := false // some parent name is unknown
 	for i := range f.locs {
 		for _, p := range f.setParents(i, counts[i]) {
@@ -228,8 +233,8 @@ func VH_C09_dispatch(kind, n0, n1, at int) {
 	}
 	// an earlier parent set that is then replaced
 	f.setParentsNamed(0, []string{"l2"})
-	counts := []int{n0, n1, 0}
-	parents := make([][]int, 3)
+	counts := []int{n0, n1, 0, 0}
+	parents := make([][]int, 4)
 	for i := range f.locs {
 		names := f.setParents(i, counts[i])
 		for _, p := range names {
